@@ -59,7 +59,8 @@ def norm(enc):
 
 
 # ------------------------------------------------------------------------------------------------------------ precedence
-WIDE = {'bom16': 'utf-16', 'bom32': 'utf-32'}
+WIDE = {'bom16': 'utf-16', 'bom32': 'utf-32', 'bom16be': 'utf-16', 'bom32be': 'utf-32'}
+BIG_ENDIAN = {'bom16be': (codecs.BOM_UTF16_BE, 'utf-16-be'), 'bom32be': (codecs.BOM_UTF32_BE, 'utf-32-be')}
 
 
 def wire_wide(cfg, parent_enc, override=None):
@@ -87,8 +88,12 @@ def level_content(i, cfg, last, parent_enc=None, override=None):
         return ('﻿' + text) if decl == 'bom' else text
     wide = wire_wide(cfg, parent_enc, override)
     if wide:
+        text = body + 'p%d{content:"W%däЖ"}' % (i, i)
+        if decl in BIG_ENDIAN:
+            # the other byte order: the BOM says so, the encoding is still called UTF-16 / UTF-32
+            return BIG_ENDIAN[decl][0] + text.encode(BIG_ENDIAN[decl][1])
         # (the utf-16/utf-32 codecs write the BOM themselves, the -le ones do not)
-        return (body + 'p%d{content:"W%däЖ"}' % (i, i)).encode(wide)
+        return text.encode(wide)
     raw = body.encode('ascii') + b'p%d{content:"' % i + PROBE + b'"}'
     return (codecs.BOM_UTF8 + raw) if decl == 'bom' else raw
 
@@ -249,7 +254,7 @@ def probe_of(sheet, i):
 
 
 HTTPS = [None, 'koi8-r', 'cp437']
-DECLS = [None, 'charset:iso-8859-5', 'charset:mac-roman', 'bom', 'bom16', 'bom32']
+DECLS = [None, 'charset:iso-8859-5', 'charset:mac-roman', 'bom', 'bom16', 'bom32', 'bom16be', 'bom32be']
 ANSWERS = ['data', 'data', 'data', 'none', 'nonepair']
 
 
@@ -257,7 +262,7 @@ def sane(cfg, override=None):
     """a BOM is generated only where the ladder ends at UTF-8 for it (a UTF-8 BOM decoded as cp437 is just garbage in front of
     the first rule) and only for byte delivery"""
     http, decl, delivery, answer = cfg
-    if decl in ('bom', 'bom16', 'bom32') and (delivery == 'text' or http or override):
+    if decl in ('bom', 'bom16', 'bom32', 'bom16be', 'bom32be') and (delivery == 'text' or http or override):
         return False
     return True
 
@@ -272,7 +277,7 @@ def level_cfgs():
 
 def top_cfgs():
     # (decl, delivery, http-of-top for parseUrl)
-    for decl in (None, 'charset:iso-8859-7', 'bom', 'bom16'):
+    for decl in (None, 'charset:iso-8859-7', 'bom', 'bom16', 'bom16be'):
         for delivery in ('bytes', 'text'):
             for http in (None, 'cp1251'):
                 yield (decl, delivery, http)
